@@ -2,13 +2,14 @@
 function of the call alone - whatever the validators (their signature / model / binding caches) saw before.
 usage: twins.py SCENARIOS.json TRACES.json"""
 import asyncio
+import functools
 import gc
 import json
 import zlib
 import logging
 import sys
 
-from pjrpc.server import AsyncDispatcher, Dispatcher
+from pjrpc.server import AsyncDispatcher, Dispatcher, ViewMixin
 from pjrpc.server.validators import jsonschema as vjs
 from pjrpc.server.validators import pydantic as vpd
 
@@ -19,7 +20,9 @@ CALLS = {1: ('user.get', [5]), 2: ('tag.get', ['abc']), 3: ('user.get', ['abc'])
          13: ('whoami', []), 14: ('ping', []), 15: ('whoami2', []),
          16: ('withctx', {'a': 1, 'ctx': 5}), 17: ('noctx', {'a': 1, 'ctx': 5}), 18: ('withctx', {'a': 1}), 19: ('noctx', {'a': 1}),
          20: ('tmp', {'x': 1}), 21: ('tmp', {'y': 1}), 22: ('tmp', {'y': 1}),
-         23: ('lax.conv', ['5']), 24: ('strict.conv', ['5']), 25: ('lax.conv', [5]), 26: ('strict.conv', [5])}
+         23: ('lax.conv', ['5']), 24: ('strict.conv', ['5']), 25: ('lax.conv', [5]), 26: ('strict.conv', [5]),
+         27: ('drain', [[1, 2, 3]]), 28: ('pv0.whoami', []), 29: ('pv0.ping', []), 30: ('add', [1, 2]), 31: ('neg', [5]),
+         32: ('scratch.note', ['a']), 33: ('scratch.note', ['x'])}
 REGEN = {20: 'x', 21: 'yz', 22: 'x'}
 
 
@@ -68,6 +71,45 @@ def build(kind):
     def ping():
         return 'pong'
 
+    def drain(items):
+        got = ''.join(str(i) for i in items)
+        del items[:]                     # consumes its argument in place
+        return got
+
+    pv0 = vpd.PydanticValidator(coerce=False)
+
+    @pv0.validate
+    def whoami0(ctx):
+        return 'ctx' if isinstance(ctx, Ctx) else 'other:%r' % (ctx,)
+
+    @pv0.validate
+    def ping0():
+        return 'pong'
+
+    def logged(f):                      # an ordinary decorator: every wrapped function shares the wrapper's code object
+        @functools.wraps(f)
+        def wrapper(*args, **kwargs):
+            return f(*args, **kwargs)
+        return wrapper
+
+    @logged
+    def add(a, b):
+        return str(a + b)
+
+    @logged
+    def neg(x):
+        return str(-x)
+
+    class Scratch(ViewMixin):
+        """a view without a context that keeps per-request scratch data on itself"""
+
+        def __init__(self):
+            self.seen = []
+
+        def note(self, what):
+            self.seen.append(what)
+            return 'noted:' + ','.join(self.seen)
+
     def both(a, ctx=None):
         return 'a_and_%s' % ('ctx' if isinstance(ctx, Ctx) else ('none' if ctx is None else ctx))
     d.add(make_get(int), 'user.get')
@@ -83,6 +125,12 @@ def build(kind):
     d.add(ping, 'ping')
     d.add(both, 'withctx', context='ctx')
     d.add(both, 'noctx')
+    d.add(drain, 'drain')
+    d.add(whoami0, 'pv0.whoami', context='ctx')
+    d.add(ping0, 'pv0.ping')
+    d.add(add, 'add')
+    d.add(neg, 'neg')
+    d.registry.view(Scratch, prefix='scratch')
     return d
 
 
